@@ -144,11 +144,7 @@ def _is_base64_data(previous_tokens: List[str], current_token: str) -> bool:
     """
     if current_token.startswith("base64(") or current_token.startswith("b64("):
         return True
-    return (
-        current_token != ""
-        and len(previous_tokens) > 0
-        and previous_tokens[-1] in ("base64", "b64")
-    )
+    return len(previous_tokens) > 0 and previous_tokens[-1] in ("base64", "b64")
 
 
 def _split_instruction_into_tokens(line: str) -> List[str]:
@@ -526,7 +522,7 @@ def parse_line(line: str) -> Optional[instructions.Instruction]:
     source_code_line = line
     fields = _split_instruction_into_tokens(line)
     comment = ""
-    if fields[-1].startswith("//"):
+    if fields[-1].startswith("//") and not _is_base64_data(fields[:-1], fields[-1]):
         comment = fields[-1]
         fields = fields[:-1]
 
